@@ -394,3 +394,34 @@ Example C12_nonvacuous_deep :
   fsck_c ex3_sec = (Ok tt, {| c_steps := 3; c_depth := 3 |}) /\
   display_id 4294967295 = [35; 52; 50; 57; 52; 57; 54; 55; 50; 57; 53] /\ display_lines ex3_sec = 4.
 Proof. exact ResourcesDeep.ex_nonvacuous_deep. Qed.
+
+(* ---- leaf functions regenerated from the source on every run (tools/gen_leaf.py -> gen/Leaf.v): agreement with the hand-written model ---- *)
+(* src/resources/mod.rs DirectoryEntry::is_dir and the high-bit tests / offset masks of ::name and ::entry, regenerated
+   from the source on every run: the model's arithmetic forms (2^31 <=? x, x - 2^31) are these bit operations *)
+From PV.Model Require Resources.
+From PV.gen Require Leaf Layout.
+From PV.Proofs Require LeafResources.
+Theorem C12_leaf_is_dir : forall s e,
+  Leaf.L_resources_DirectoryEntry_is_dir_dom (Resources.rd32 s (e + Layout.IMAGE_RESOURCE_DIRECTORY_ENTRY_Offset_off)) = true ->
+  Leaf.L_resources_DirectoryEntry_is_dir_ok (Resources.rd32 s (e + Layout.IMAGE_RESOURCE_DIRECTORY_ENTRY_Offset_off)) = true /\
+  Leaf.L_resources_DirectoryEntry_is_dir (Resources.rd32 s (e + Layout.IMAGE_RESOURCE_DIRECTORY_ENTRY_Offset_off)) = Resources.e_is_dir s e.
+Proof. exact LeafResources.is_dir_agrees. Qed.
+Print Assumptions C12_leaf_is_dir.
+Theorem C12_leaf_entry_name : forall slws s e,
+  Leaf.L_resources_DirectoryEntry_name__is_wide_dom (Resources.rd32 s (e + Layout.IMAGE_RESOURCE_DIRECTORY_ENTRY_Name_off)) = true ->
+  Resources.e_name_g slws s e =
+    (let v := Resources.rd32 s (e + Layout.IMAGE_RESOURCE_DIRECTORY_ENTRY_Name_off) in
+     if Leaf.L_resources_DirectoryEntry_name__is_wide v
+     then r <- slws s (Leaf.L_resources_DirectoryEntry_name__offset v) ;; Ok (Resources.NWide (Resources.words s (fst r) (snd r)))
+     else Ok (Resources.NId v)).
+Proof. exact LeafResources.e_name_agrees. Qed.
+Print Assumptions C12_leaf_entry_name.
+Theorem C12_leaf_entry_entry : forall sl s e,
+  Leaf.L_resources_DirectoryEntry_is_dir_dom (Resources.rd32 s (e + Layout.IMAGE_RESOURCE_DIRECTORY_ENTRY_Offset_off)) = true ->
+  Resources.e_entry_g sl s e =
+    (let v := Resources.rd32 s (e + Layout.IMAGE_RESOURCE_DIRECTORY_ENTRY_Offset_off) in
+     if Leaf.L_resources_DirectoryEntry_is_dir v
+     then o <- Resources.dir_try_from_g sl s (Leaf.L_resources_DirectoryEntry_entry__offset v) ;; Ok (Resources.EDir o)
+     else o <- sl s v 16 4 ;; Ok (Resources.EData o)).
+Proof. exact LeafResources.e_entry_agrees. Qed.
+Print Assumptions C12_leaf_entry_entry.
